@@ -33,6 +33,28 @@ CLAIMED["C02"] = dict(
          "every call of a policy error handler anywhere in the library every normal path aborts before returning; no catch / noexcept boundary on "
          "the path swallows a throwing handler's exception. Does not decide that error cells are placed in the right table cells for every registry.",
     design_ref="DESIGN.md section 4, C02")
+CLAIMED["C20"] = dict(engine="e3",
+    technique="generated static_assert witnesses decided by the type checker",
+    text="Decides the property as a statement about type functions: product/apply_product/transform_product yield the row-major Cartesian "
+         "product for all list-length vectors in range; use_definitions<D, product<...>> is exactly aggregate<add_definition<D<combo>>...> over the "
+         "combinations not derived from not_defined (every subset of a 2x3 product, seeded larger cases, both ways of naming the method); aggregate<> "
+         "has one leaf per element for sizes around the 512 split; add_definition wires next iff the container has one. That constructing the "
+         "aggregate runs one registration per element is a language guarantee; run-time catalog contents are not observed.",
+    design_ref="DESIGN.md section 4, C20")
+CLAIMED["C08"] = dict(engine="e3+yast",
+    technique="type-checker witnesses over generated hierarchies and list presentations; AST rule on augment_classes",
+    text="Decides the compile-time half: for seeded random hierarchies (chains, trees, forests, DAGs with virtual bases, 2-8 classes) and list "
+         "presentations (full, permuted, subsets, nested groups, macro forms, default policy) use_classes/class_declaration produce exactly the "
+         "registration records 'class with the listed classes that are its bases, in list order'. Does not decide the run-time merge of records "
+         "(de-duplication, weight sort, direct-base extraction, covariant closure, lattice slot reservation) for partial base lists.",
+    design_ref="DESIGN.md section 4, C08")
+CLAIMED["C14"] = dict(engine="yast+yir+e3",
+    technique="AST who-may-reference rule over policy keys of statics and functions; IR effect-set disjointness; type-checker witnesses for rebind/replace/remove",
+    text="Decides isolation structurally: every mutable static of the library is keyed by a policy type; no function keyed by policy A references a "
+         "static or function keyed by an unrelated policy B (nine policies over the same classes in one unit); the globals A's call path touches are "
+         "disjoint from those update<B> writes; rebind/replace/remove re-key every facet, inherit nothing keyed by the old policy and yield distinct "
+         "static objects (catalogs, dispatch data, hash parameters, v-table pointers, handlers).",
+    design_ref="DESIGN.md section 4, C14")
 NA = {
 }
 DEFAULT_NA = "check not built yet (see DESIGN.md section 4 for the planned clause)"
@@ -43,6 +65,10 @@ m = {"version": 1,
                "baseline_off_cmd": "cmake --build /repo/_build && ctest --test-dir /repo/_build -j8 --timeout 900",
                "source_commits": [], "add_only": True},
      "engines": [
+        {"name": "yast", "path": "engine/yast.cpp", "kind_free_text": "clang front-end plugin serialising instantiated, type-resolved ASTs, CFGs, static-storage variables with policy keys; Python rules lib/yv/astq.py + checks",
+         "serves_properties": ["C08", "C14"]},
+        {"name": "e3", "path": "lib/yv/e3.py", "kind_free_text": "generated compile-pass / compile-fail / static_assert witnesses decided by clang's type checker, diagnostics attributed per obligation",
+         "serves_properties": ["C08", "C14", "C20"]},
         {"name": "yir", "path": "engine/yir.cpp", "kind_free_text": "LLVM-IR (post mem2reg) serialiser + Python rules lib/yv/{irq,eff,sym}.py: effect sets, symbolic summaries, path queries",
          "serves_properties": ["C01", "C02", "C16"]},
      ],
